@@ -1,13 +1,14 @@
 #!/bin/sh
-# importseed.sh <PID> [extra check ids]   : confirm and import /tmp/seed/<PID>/_seed/{a,b,c} into /verif/seeded/
-PID=$1; shift; EXTRA="$@"
+# importseed.sh <PID> [extra check ids]   : confirm and import $SEEDROOT/<PID>/_seed/{a,b,c} into /verif/seeded/<PID>-$ROUND{a,b,c}
+# env: SEEDROOT (default /tmp/seed), ROUND (default empty; "2" for the second round)
+PID=$1; shift; EXTRA="$@"; SEEDROOT=${SEEDROOT:-/tmp/seed}
 cd /verif
 for v in a b c; do
-  S=/tmp/seed/$PID/_seed/$v
+  S=$SEEDROOT/$PID/_seed/$v
   [ -f $S/patch.diff ] || continue
-  D=/verif/seeded/$PID-$v; mkdir -p $D
+  D=/verif/seeded/$PID-$ROUND$v; mkdir -p $D
   cp $S/patch.diff $S/demo.py $D/; [ -f $S/notes.txt ] && cp $S/notes.txt $D/
-  python3 -m vf.tools.seedcheck $D $PID $EXTRA --write-meta > /tmp/seedcheck_$PID$v.log 2>&1
+  python3 -m vf.tools.seedcheck $D $PID $EXTRA --write-meta > /tmp/seedcheck_$PID$ROUND$v.log 2>&1
   python3 - "$D" "$PID" <<'PY'
 import json, sys, os
 d, pid = sys.argv[1], sys.argv[2]
@@ -29,6 +30,14 @@ meta = {
  "checks_run_against_it": r.get("checks"),
  "caught_by": r.get("caught_by"),
 }
+old = os.path.join(d, "meta.json")
+if os.path.exists(old):
+    try:
+        h = json.load(open(old)).get("history")
+        if h:
+            meta["history"] = h
+    except Exception:
+        pass
 json.dump(meta, open(os.path.join(d, "meta.json"), "w"), indent=1)
 os.remove(os.path.join(d, "check_result.json"))
 print(os.path.basename(d), "valid=%s" % r.get("valid_seed"), "caught_by=%s" % r.get("caught_by"),
